@@ -125,21 +125,26 @@ theorem roundHalfEven_near (a : Nat) : roundHalfEven a 10000 * 10000 ≤ a + 500
     · omega
     · split <;> omega
 
-/-! ## synthetic time text -/
+/-! ## synthetic time text
+
+`0000-01-01T00:00:00.<13 digits: sec+10^12><3 digits: ms><7 digits: off+10^6>Z` — an injective
+encoding of (instant at 1 ms, zone) inside the FRACTION of a syntactically valid RFC 3339
+date-time.  It only serves as the satisfiability witness of `Codec.Valid` (and of
+`TimeGrammatical`); the real layout is `goFormatTime` / `goParseTime`. -/
+
+def exactTimePrefix : Str := cs!"0000-01-01T00:00:00."
 
 def exactFmtTime (t : Time) : Str :=
-  formatNat (t.sec + 1000000000000).toNat ++ 'T' :: (formatNat (t.nsec / 1000000) ++ 'T' :: formatNat (t.off + 1000000).toNat)
+  exactTimePrefix ++ (padNat 13 (t.sec + 1000000000000).toNat ++ (padNat 3 (t.nsec / 1000000) ++
+    (padNat 7 (t.off + 1000000).toNat ++ ['Z'])))
 
 def exactParseTime (s : Str) : Option Time :=
-  match cutP 'T' s with
-  | some (a, r) =>
-    match cutP 'T' r with
-    | some (b, c) =>
-      match parseUint 64 a, parseUint 64 b, parseUint 64 c with
-      | some a, some b, some c => some { sec := (a : Int) - 1000000000000, nsec := b * 1000000, off := (c : Int) - 1000000 }
-      | _, _, _ => none
-    | none => none
-  | none => none
+  let body := s.drop 20
+  if s.take 20 = exactTimePrefix ∧ body.length = 24 ∧ body.drop 23 = ['Z'] ∧ (body.take 23).all isDigit = true then
+    some { sec := (digitsValue (body.take 13) : Int) - 1000000000000,
+           nsec := digitsValue ((body.drop 13).take 3) * 1000000,
+           off := (digitsValue ((body.drop 16).take 7) : Int) - 1000000 }
+  else none
 
 def Codec.exact : Codec where
   fmtDur := exactFmtDur
@@ -147,23 +152,42 @@ def Codec.exact : Codec where
   fmtTime := exactFmtTime
   parseTime := exactParseTime
 
-theorem T_not_mem_formatNat (n : Nat) : 'T' ∉ formatNat n := fun h => by
-  have := formatNat_mem_isDigit h
-  exact absurd this (by decide)
-
 theorem Codec.exact_valid : Codec.exact.Valid where
   fmt_dur := fun d _ => ⟨roundHalfEven d.natAbs 10000, rfl, (roundHalfEven_near _).1, (roundHalfEven_near _).2⟩
   parse_dur := fun neg q _ => ⟨q * 10000, exactParseDur_decText neg q, Nat.le_refl _, Nat.le_succ _⟩
   time_rt := fun t hw => by
     simp only [wfTime, Bool.and_eq_true, decide_eq_true_eq] at hw
     obtain ⟨⟨⟨⟨⟨h1, h2⟩, h3⟩, h4⟩, h5⟩, h6⟩ := hw
+    obtain ⟨a1, a2, a3⟩ := padNat_spec (w := 13) (n := (t.sec + 1000000000000).toNat) (by decide) (by omega)
+    obtain ⟨b1, b2, b3⟩ := padNat_spec (w := 3) (n := t.nsec / 1000000) (by decide) (by omega)
+    obtain ⟨c1, c2, c3⟩ := padNat_spec (w := 7) (n := (t.off + 1000000).toNat) (by decide) (by omega)
     show exactParseTime (exactFmtTime t) = some (truncMs t)
     unfold exactParseTime exactFmtTime
-    rw [cutP_append _ (T_not_mem_formatNat _)]
-    simp only
-    rw [cutP_append _ (T_not_mem_formatNat _)]
-    simp only
-    rw [parseUint_formatNat (by omega), parseUint_formatNat (by omega), parseUint_formatNat (by omega)]
+    have hp : exactTimePrefix.length = 20 := by decide
+    simp only [List.drop_left' hp, List.take_left' hp, true_and]
+    have hlen : (padNat 13 (t.sec + 1000000000000).toNat ++ (padNat 3 (t.nsec / 1000000) ++
+        (padNat 7 (t.off + 1000000).toNat ++ ['Z']))).length = 24 := by simp [a1, b1, c1]
+    have hd23 : List.drop 23 (padNat 13 (t.sec + 1000000000000).toNat ++ (padNat 3 (t.nsec / 1000000) ++
+        (padNat 7 (t.off + 1000000).toNat ++ ['Z']))) = ['Z'] := by
+      rw [← List.append_assoc, ← List.append_assoc]
+      exact List.drop_left' (by simp [a1, b1, c1])
+    have ht23 : List.take 23 (padNat 13 (t.sec + 1000000000000).toNat ++ (padNat 3 (t.nsec / 1000000) ++
+        (padNat 7 (t.off + 1000000).toNat ++ ['Z']))) =
+        padNat 13 (t.sec + 1000000000000).toNat ++ padNat 3 (t.nsec / 1000000) ++ padNat 7 (t.off + 1000000).toNat := by
+      rw [← List.append_assoc, ← List.append_assoc]
+      exact List.take_left' (by simp [a1, b1, c1])
+    have ht13 : List.take 13 (padNat 13 (t.sec + 1000000000000).toNat ++ (padNat 3 (t.nsec / 1000000) ++
+        (padNat 7 (t.off + 1000000).toNat ++ ['Z']))) = padNat 13 (t.sec + 1000000000000).toNat :=
+      List.take_left' a1
+    have hd13 : List.drop 13 (padNat 13 (t.sec + 1000000000000).toNat ++ (padNat 3 (t.nsec / 1000000) ++
+        (padNat 7 (t.off + 1000000).toNat ++ ['Z']))) = padNat 3 (t.nsec / 1000000) ++ (padNat 7 (t.off + 1000000).toNat ++ ['Z']) :=
+      List.drop_left' a1
+    have hd16 : List.drop 16 (padNat 13 (t.sec + 1000000000000).toNat ++ (padNat 3 (t.nsec / 1000000) ++
+        (padNat 7 (t.off + 1000000).toNat ++ ['Z']))) = padNat 7 (t.off + 1000000).toNat ++ ['Z'] := by
+      rw [← List.append_assoc]
+      exact List.drop_left' (by simp [a1, b1])
+    simp only [hlen, hd23, ht23, ht13, hd13, hd16, List.take_left' b1, List.take_left' c1, List.all_append, a2, b2, c2,
+      Bool.and_self, and_self, ↓reduceIte, a3, b3, c3]
     have e1 : (((t.sec + 1000000000000).toNat : Nat) : Int) - 1000000000000 = t.sec := by
       rw [Int.toNat_of_nonneg (by omega)]; omega
     have e2 : (((t.off + 1000000).toNat : Nat) : Int) - 1000000 = t.off := by
@@ -176,8 +200,11 @@ theorem Codec.exact_valid : Codec.exact.Valid where
     rw [this]
   time_chars := fun t _ => by
     show (exactFmtTime t).all timeChar = true
-    have hd : ∀ n, (formatNat n).all timeChar = true := fun n =>
-      List.all_eq_true.mpr fun c hc => by simp [timeChar, formatNat_mem_isDigit hc]
-    simp [exactFmtTime, List.all_append, hd, timeChar]
+    have hd : ∀ w n, (padNat w n).all timeChar = true := fun w n =>
+      List.all_eq_true.mpr fun c hc => by
+        have := List.all_eq_true.mp (padNat_all_digits w n) c hc
+        simp [timeChar, this]
+    simp only [exactFmtTime, List.all_append, hd, Bool.and_true, Bool.true_and]
+    decide
 
 end Hls.Playlist.MP
